@@ -158,6 +158,9 @@ impl<'a, 'tcx> H<'a, 'tcx> {
             match &s.kind {
                 StmtKind::Let(l) => {
                     let mut o = vec![("k", J::s("slet")), ("p", self.pat(l.pat))];
+                    if let Some(t) = l.ty {
+                        o.push(("hty", J::s(hty(self.tcx, t))));
+                    }
                     if let Some(i) = l.init {
                         o.push(("e", self.expr(i)));
                     }
@@ -276,7 +279,7 @@ impl<'a, 'tcx> H<'a, 'tcx> {
                     .collect();
                 vec![
                     ("k", J::s("match")),
-                    ("src", J::s(format!("{:?}", src))),
+                    ("src", J::s(format!("{:?}", src).split('(').next().unwrap_or("").to_string())),
                     ("e", self.expr(scrut)),
                     ("arms", J::A(arms_j)),
                 ]
@@ -366,6 +369,99 @@ impl<'a, 'tcx> H<'a, 'tcx> {
         let (_, ln) = loc(self.tcx, e.span);
         o.push(("ln", J::N(ln as i128)));
         J::O(o)
+    }
+}
+
+/// declared (unexpanded) type as written: type aliases such as `VarNo`/`LevelNo` stay visible
+pub fn hty<'tcx>(tcx: TyCtxt<'tcx>, t: &hir::Ty<'tcx>) -> String {
+    use hir::TyKind;
+    match &t.kind {
+        TyKind::Slice(x) => format!("[{}]", hty(tcx, x)),
+        TyKind::Array(x, _) => format!("[{}; _]", hty(tcx, x)),
+        TyKind::Ptr(m) => format!("*{}", hty(tcx, m.ty)),
+        TyKind::Ref(_, m) => format!("&{}", hty(tcx, m.ty)),
+        TyKind::Tup(xs) => format!("({})", xs.iter().map(|x| hty(tcx, x)).collect::<Vec<_>>().join(", ")),
+        TyKind::Path(qp) => match qp {
+            QPath::Resolved(_, path) => {
+                let base = match path.res {
+                    Res::Def(_, did) => pretty_plain(tcx, did),
+                    Res::PrimTy(p) => p.name_str().to_string(),
+                    Res::SelfTyAlias { .. } | Res::SelfTyParam { .. } => "Self".to_string(),
+                    _ => "_".to_string(),
+                };
+                let mut args = Vec::new();
+                if let Some(seg) = path.segments.last() {
+                    if let Some(ga) = seg.args {
+                        for a in ga.args {
+                            if let hir::GenericArg::Type(ty) = a {
+                                args.push(hty(tcx, ty.as_unambig_ty()));
+                            }
+                        }
+                    }
+                }
+                if args.is_empty() { base } else { format!("{}<{}>", base, args.join(", ")) }
+            }
+            QPath::TypeRelative(ty, seg) => format!("<{}>::{}", hty(tcx, ty), seg.ident),
+        },
+        TyKind::Never => "!".to_string(),
+        TyKind::OpaqueDef(op) => {
+            // `impl Trait<Item = T>`: keep the associated-type bindings visible
+            let mut parts = Vec::new();
+            for b in op.bounds {
+                if let hir::GenericBound::Trait(ptr) = b {
+                    let path = ptr.trait_ref.path;
+                    let base = match path.res {
+                        Res::Def(_, did) => pretty_plain(tcx, did),
+                        _ => "_".to_string(),
+                    };
+                    let mut args = Vec::new();
+                    if let Some(seg) = path.segments.last() {
+                        if let Some(ga) = seg.args {
+                            for a in ga.args {
+                                if let hir::GenericArg::Type(ty) = a {
+                                    args.push(hty(tcx, ty.as_unambig_ty()));
+                                }
+                            }
+                            for c in ga.constraints {
+                                if let Some(ty) = c.ty() {
+                                    args.push(format!("{} = {}", c.ident, hty(tcx, ty)));
+                                }
+                            }
+                        }
+                    }
+                    parts.push(if args.is_empty() { base } else { format!("{}<{}>", base, args.join(", ")) });
+                }
+            }
+            format!("impl {}", parts.join(" + "))
+        }
+        _ => "_".to_string(),
+    }
+}
+
+/// declared signatures of all fn-like items (also trait methods without a body)
+pub fn dump_sigs<'tcx>(cx: &mut Ctx<'tcx>) {
+    let tcx = cx.tcx;
+    for ldid in tcx.hir_crate_items(()).definitions() {
+        if !matches!(tcx.def_kind(ldid), DefKind::Fn | DefKind::AssocFn) {
+            continue;
+        }
+        let node = tcx.hir_node_by_def_id(ldid);
+        let Some(decl) = node.fn_decl() else { continue };
+        let ptys: Vec<J> = decl.inputs.iter().map(|t| J::s(hty(tcx, t))).collect();
+        let rty = match decl.output {
+            hir::FnRetTy::Return(t) => hty(tcx, t),
+            hir::FnRetTy::DefaultReturn(_) => "()".to_string(),
+        };
+        cx.out.push(
+            J::O(vec![
+                ("k", J::s("sig")),
+                ("id", J::s(dp(tcx, ldid.to_def_id()))),
+                ("name", J::s(pretty_plain(tcx, ldid.to_def_id()))),
+                ("ptys", J::A(ptys)),
+                ("rty", J::s(rty)),
+            ])
+            .to_string(),
+        );
     }
 }
 
